@@ -1,6 +1,7 @@
 (* C12 — Non-semantic variation of source or options does not change the email. *)
 From Coq Require Import List Bool Permutation NArith.
 From Coq.Strings Require Import String Byte.
+From GV Require Attr.Store.
 From GV Require Import Base.Bytes Base.Tok Parser.Pre Parser.PreProofs Parser.Build Variation.Invariance Facts.Sites.
 Import ListNotations.
 Open Scope string_scope.
@@ -34,7 +35,15 @@ Theorem C12_debug_flag_sites :
              if w then String.eqb f "WithDebugTags" else String.eqb f "BaseComponent.AddDebugAttribute") debug_flag_sites = true.
 Proof. vm_compute. reflexivity. Qed.
 
+(* attribute order inside <mj-class> (incl. the position of name=) does not change any class look-up *)
+Theorem C12_mj_class_attribute_order : forall es1 es2 x x' c a,
+  NoDup (map fst x) -> Permutation.Permutation x x' ->
+  Attr.Store.class_get (Attr.Store.process (es1 ++ Attr.Store.EClass x :: es2)) c a =
+  Attr.Store.class_get (Attr.Store.process (es1 ++ Attr.Store.EClass x' :: es2)) c a.
+Proof. exact Attr.Store.mj_class_attribute_order_irrelevant. Qed.
+
 Print Assumptions C12_attribute_order.
 Print Assumptions C12_leading_blank_lines.
 Print Assumptions C12_debug_only_adds_attributes.
 Print Assumptions C12_debug_flag_sites.
+Print Assumptions C12_mj_class_attribute_order.
